@@ -13,6 +13,26 @@ CLAIMED = {
    technique="deterministic simulation: simulated ITIMER_PROF/SIGPROF with seeded delivery of expiries at every statement boundary of the watchdog bookkeeping; reference list of (creation, delay, alive) as oracle",
    text="Seeded search over client schedules (create/destroy/idle) and expiry placements: the real Watchdog/Pending_List/Threshold_Watcher code runs against a simulated one-shot timer; every action invocation is compared with a reference list (never early: exact; at most once; never after destruction; deadline order; bounded lateness; every live watchdog fires once the client is idle). Weight watchers are checked against the modular threshold model at every check. A clean batch is evidence, not proof.",
    note="Trusted: the yield sites enumerate the preemption points that matter (statement boundaries; a torn read of a Time is not modelled); the lateness bound grants 1 cs per expiry deferred by a critical section plus the measured getitimer/setitimer gap; foreign signals and failing timer system calls are out of scope."),
+ "C01": dict(
+   category="exploration", design_ref="DESIGN.md §4 C01, §3.5 (M-twin, M-const, M-ok)",
+   technique="deterministic simulation of operation histories over a pool of polyhedra; refinement against an eager re-execution (canonical twin) plus exact point evaluation",
+   text="Seeded search over histories (mutators, observers, copies, aliasing, dump/load) that drive the lazy representation through its status flags; after every operation the receiver must pass OK(), const operands must denote the same set, and the same operation on a twin re-built from the object's own minimized description must give the same value and the same answers. Decides the history-dependent part of the statement; a clean batch is evidence, not proof.",
+   note="Trusted: exact point evaluation of constraints (150 lines); the twin shares conversion/minimisation code with the implementation, so a wrong conversion that is wrong in the same way from both states is not seen. Absolute LP oracle not built yet."),
+ "C13": dict(
+   category="exploration", design_ref="DESIGN.md §4 C13",
+   technique="deterministic simulation of copy/assign/swap/alias interleavings over an object pool with bystander monitoring",
+   text="Seeded histories with copies, assignments, swaps, self-assignment, self-swap and aliased operands; objects not involved in an operation must keep their exact dump text, const operands their value, and x.op(x) must equal copy.op(copy). Currently instantiated for C and NNC polyhedra.",
+   note="Only the polyhedra instantiation is registered so far (shapes, boxes, grids, powersets, products and the syntactic classes are being triaged)."),
+ "C14": dict(
+   category="fault_enumeration", design_ref="DESIGN.md §4 C14, §3.3-3.5 (M-fault), §5.1",
+   technique="fault injection in forked branches of a deterministic simulation: k-th allocation (operator new and GMP) fails, abandonment at the k-th maybe_abandon() checkpoint, abandon flag at an allocation instant, weight threshold; LeakSanitizer reachability as leak oracle",
+   text="For operation instances reached by seeded histories, the operation is re-executed from its exact pre-state with one injected fault per branch; judged: exception type, global state (rounding mode, watcher hook), bystanders unchanged, every involved object can be destroyed / assigned / swapped and then behaves like a pristine object with that value, and no block allocated during the call is unreachable after everything is destroyed. Rejected (ill-formed) calls must throw std::invalid_argument / std::length_error and leave values unchanged. Thorough tier enumerates fault positions over the whole range of the operation instance.",
+   note="Interpretation of 'can still be used' is the basic guarantee (DESIGN.md §5.1). Currently instantiated for C and NNC polyhedra. Coefficient overflow is not injected."),
+ "C15": dict(
+   category="exploration", design_ref="DESIGN.md §4 C15",
+   technique="deterministic simulation with crash/restart semantics: dump at arbitrary history points, load into arbitrary receivers, lock-step continuation of original and reloaded replica",
+   text="At random points of seeded histories an object is dumped and the text loaded into a fresh object or into a copy of any live object (any lazy state); load must succeed, give OK(), an identical re-dump and an equal value, and the replica must answer all later operations like the original.",
+   note="Currently instantiated for C and NNC polyhedra; streams are std::stringstream (chunked streambuf not built yet)."),
 }
 
 NOT_APPLICABLE = {
